@@ -8,6 +8,7 @@ pub mod c06;
 pub mod c12;
 pub mod c13;
 pub mod c14;
+pub mod c15;
 pub mod c17;
 
 pub fn lookup(id: &str) -> Option<fn(&Report, bool) -> Evidence> {
@@ -20,6 +21,7 @@ pub fn lookup(id: &str) -> Option<fn(&Report, bool) -> Evidence> {
         "C12" => c12::run,
         "C13" => c13::run,
         "C14" => c14::run,
+        "C15" => c15::run,
         "C17" => c17::run,
         _ => return None,
     })
